@@ -1,6 +1,7 @@
 import MJ.Proofs.SliceFwd
 import MJ.Proofs.PySliceSpec
 import MJ.Proofs.SubGlue
+import MJ.Proofs.SubKinds
 /-!
 # C09 — subscripts and slices follow Python's rules for every bound and step
 
@@ -754,4 +755,485 @@ example : slice ([] : List Nat) none none (some (-9223372036854775808)) = .ok (.
 example : slice [1, 2, 3] (some (-2)) none (some 0) = .ok .zeroStep := by decide
 example : PySlice.indices 5 (some 4) (some 0) (-1) = [4, 3, 2, 1] := by decide
 
+end MJ.C09
+
+namespace MJ.C09
+open MJ Chk Slice
+section Round5
+open MJ.Sub
+set_option linter.unusedSimpArgs false
+
+/-! # Conversion sites: representation is not an input (deepening round 5)
+
+`MJ.Gen.c09ConversionSites` (regenerated from `/repo`) lists every place where a template value
+becomes a subscript, a slice bound / step, a position or a count, with the function that converts it.
+`convBy` is the model of those functions. -/
+
+/-- every row of the regenerated table names a conversion the model knows, every target type has
+    a range -/
+theorem conversion_sites_known : MJ.Gen.c09ConversionSites.all knownSite = true := by decide
+
+/-- `TryFrom<Value>` exists for exactly the integer types the model has ranges for, and every one
+    of them holds 0 and 1 (what booleans convert to) -/
+theorem int_types_hold_bools : MJ.Gen.c09IntTypes.all (fun t =>
+    match intTypeRange t with
+    | some (lo, hi) => decide (lo ≤ 0 ∧ 1 ≤ hi)
+    | Option.none => false) = true := by decide
+
+/-- **representation independence**: at every site of the table, two numbers that hold the same
+    integer convert alike — whatever their representation: `I64`, `U64`, `I128`, `U128` or an
+    integral `F64`.  (The result is `convSpec`, a function of the integer alone.) -/
+theorem bound_conversion_repr_independent {α : Type} (p : String × String × String) (_hp : p ∈ MJ.Gen.c09ConversionSites)
+    (n m : N) (x : Int) (hv : HoldsInt (Val.num n : Val α) x) (hw : HoldsInt (Val.num m : Val α) x) :
+    convBy p.2.1 p.2.2 (Val.num n : Val α) = convBy p.2.1 p.2.2 (Val.num m : Val α) ∧
+    convBy p.2.1 p.2.2 (Val.num n : Val α) = convSpec p.2.1 p.2.2 x "number" := by
+  rw [convBy_of_holds _ _ _ x hv, convBy_of_holds _ _ _ x hw, kind_num, kind_num]
+  exact ⟨rfl, rfl⟩
+
+/-- the five representations of 3 (and of -1 where there is one) at a slice bound, a subscript and a
+    typed argument -/
+example : convBy "slice_bound" "i64" (Val.num (.u128 3) : Val Nat) = some (.int 3) ∧
+    convBy "slice_bound" "i64" (Val.num (.i128 (-1)) : Val Nat) = some (.int (-1)) ∧
+    convBy "as_i64+isize" "isize" (Val.num (.u64 3) : Val Nat) = some (.int 3) ∧
+    convBy "try_from" "isize" (Val.num (.i128 3) : Val Nat) = some (.int 3) ∧
+    convBy "as_usize" "usize" (Val.bool true : Val Nat) = some (.int 1) := by decide
+example : HoldsInt (Val.num (.i128 3) : Val Nat) 3 ∧ HoldsInt (Val.num (.u64 3) : Val Nat) 3 :=
+  ⟨⟨by decide, rfl, trivial⟩, ⟨by decide, rfl, trivial⟩⟩
+example : ("ops::slice.stop", "slice_bound", "i64") ∈ MJ.Gen.c09ConversionSites ∧
+    ("get_item_opt::index", "as_i64+isize", "isize") ∈ MJ.Gen.c09ConversionSites ∧
+    ("functions.rs:range.upper", "try_from", "isize") ∈ MJ.Gen.c09ConversionSites := by decide
+
+theorem sites_bool_in_range : MJ.Gen.c09ConversionSites.all (fun p =>
+    convSpec p.2.1 p.2.2 0 "bool" == convSpec p.2.1 p.2.2 0 "number" &&
+    convSpec p.2.1 p.2.2 1 "bool" == convSpec p.2.1 p.2.2 1 "number") = true := by decide
+
+/-- booleans convert like the integers 0 and 1 at every site of the table -/
+theorem bound_conversion_bool {α : Type} (p : String × String × String) (hp : p ∈ MJ.Gen.c09ConversionSites) (b : Bool) :
+    convBy p.2.1 p.2.2 (Val.bool b : Val α) = convBy p.2.1 p.2.2 (Val.num (.i64 (if b then 1 else 0)) : Val α) := by
+  have hx : i64Min ≤ (if b then (1 : Int) else 0) ∧ (if b then (1 : Int) else 0) ≤ i64Max := by cases b <;> decide
+  rw [convBy_of_holds _ _ _ _ (holds_bool b), convBy_of_holds _ _ _ _ (holds_i64 _ hx), kind_num]
+  have hk : (Val.bool b : Val α).kindDisplay = "bool" := by simp only [Val.kindDisplay, Val.repr]; decide
+  rw [hk]
+  have h := List.all_eq_true.mp sites_bool_in_range p hp
+  simp only [Bool.and_eq_true, beq_iff_eq] at h
+  cases b
+  · exact h.1
+  · exact h.2
+
+example : convBy "slice_bound" "i64" (Val.bool true : Val Nat) = convBy "slice_bound" "i64" (Val.num (.i64 1) : Val Nat) :=
+  bound_conversion_bool ("ops::slice.start", "slice_bound", "i64") (by decide) true
+
+/-- everything that holds no integer — undefined, none (where a part is not optional), strings,
+    bytes, containers, and floats that are fractional, not finite or `≥ 2^63` — is rejected the same
+    way by every site, whatever it is: the conversion error of that site, or "no index" -/
+theorem bound_conversion_rejects {α : Type} (fn target : String) (v : Val α)
+    (h : MJ.Gen.c09IntTryFromArms.contains v.repr = false ∨ v.payload = Option.none) :
+    convBy fn target v = convReject fn target v := by
+  unfold convBy convReject
+  by_cases h1 : fn = "slice_bound"
+  · simp only [h1, if_true, sliceBound, clampRow_none_of_no_int v h, valI64, tryInt_none _ _ v h]
+  · simp only [h1, if_false]
+    by_cases h2 : fn = "as_i64+isize"
+    · simp only [h2, if_true, valI64, tryInt_none _ _ v h]
+    · simp only [h2, if_false]
+      by_cases h3 : fn = "as_usize"
+      · simp only [h3, if_true, valUsize, tryInt_none _ _ v h, Option.map_none]
+      · simp only [h3, if_false]
+        by_cases h4 : fn = "try_from"
+        · simp only [h4, if_true]
+          cases intTypeRange target with
+          | none => rfl
+          | some p => simp only [tryInt_none _ _ v h]
+        · simp only [h4, if_false]
+
+example : convBy "slice_bound" "i64" (Val.undef : Val Nat) = some (.error (convErr (Val.undef : Val Nat))) ∧
+    convBy "as_i64+isize" "isize" (Val.str .small [0x31] : Val Nat) = some .absent := by
+  exact ⟨bound_conversion_rejects _ _ _ (Or.inl (by decide)), bound_conversion_rejects _ _ _ (Or.inl (by decide))⟩
+
+/-! # Strings at the level of bytes, negative steps included -/
+
+theorem indices_any_bounds (len : Nat) (A B : Option Int) (c : Int) (hl : len < 9223372036854775808) (hc : c ≠ 0) :
+    ∀ i ∈ PySlice.indices len A B c, i < len := by
+  rw [← indices_clamp len A B c hl hc]
+  have hcl : ∀ x : Int, InI64 (clampI64 x) := by
+    intro x; unfold InI64 clampI64 i64Min i64Max; split
+    · omega
+    · split <;> omega
+  have hopt : ∀ o : Option Int, OptInI64 (o.map clampI64) := by
+    intro o; cases o with
+    | none => trivial
+    | some x => exact hcl x
+  exact indices_in_bounds len _ _ _ (hopt A) (hopt B) (hcl c) (by rw [Ne, clampI64_zero_iff]; exact hc) hl
+
+example : ∀ i ∈ PySlice.indices 5 (some 100000000000000000000) none (-3), i < 5 :=
+  indices_any_bounds 5 _ _ _ (by decide) (by decide)
+
+/-- Slicing the string that holds the scalar values `cs` (any of them: combining marks, 4-byte
+    characters, …) with any step, negative ones included, builds exactly the concatenation of the
+    *whole* byte ranges of the characters Python selects, in Python's order; every such range starts
+    and ends on a character boundary of the source and is the UTF-8 encoding of that character; the
+    result is well-formed UTF-8 again and holds Python's `s[a:b:c]`. -/
+theorem str_slice_bytes {α : Type} (r : StrRepr) (cs : List Char) (a b c : Val α) (A B C : Option Int)
+    (ha : pyBound a = some A) (hb : pyBound b = some B) (hc : pyBound c = some C)
+    (wa : a.WF) (wb : b.WF) (wc : c.WF) (hl : cs.length < 9223372036854775808) (h0 : C ≠ some 0) :
+    let idxs := PySlice.indices cs.length A B (C.getD 1)
+    sliceV (Val.str r (encode cs) : Val α) a b c = .ok (.ok (.str .normal (strSliceBytes (encode cs) idxs))) ∧
+    (∀ i ∈ idxs, i < cs.length ∧ charBytesAt (encode cs) i = String.utf8EncodeChar cs[i]! ∧
+        (encode cs).take (encode (cs.take i)).length = encode (cs.take i) ∧
+        (encode cs).drop (encode (cs.take i)).length = encode (cs.drop i)) ∧
+    chars (strSliceBytes (encode cs) idxs) = pick cs idxs ∧
+    encode (chars (strSliceBytes (encode cs) idxs)) = strSliceBytes (encode cs) idxs := by
+  intro idxs
+  have hst : C.getD 1 ≠ 0 := by
+    cases C with
+    | none => simp
+    | some x => simpa using h0
+  have hbnd : ∀ i ∈ idxs, i < cs.length := indices_any_bounds cs.length A B (C.getD 1) hl hst
+  have henc : encode (pick cs idxs) = strSliceBytes (encode cs) idxs := encode_pick cs idxs hbnd
+  refine ⟨?_, ?_, ?_, ?_⟩
+  · have hA := optBound_pyBound a A ha wa
+    have hB := optBound_pyBound b B hb wb
+    have hC := optBound_pyBound c C hc wc
+    have hstep : (C.map clampI64).getD 1 = clampI64 (C.getD 1) := by
+      cases C with
+      | none => simp [clampI64, i64Min, i64Max]
+      | some x => rfl
+    have hne : clampI64 (C.getD 1) ≠ 0 := by rw [Ne, clampI64_zero_iff]; exact hst
+    have hrA := optBound_range a _ hA
+    have hrB := optBound_range b _ hB
+    have hrC := getD_range _ (optBound_range c _ hC)
+    rw [hstep] at hrC
+    unfold sliceV
+    simp only [hA, hB, hC, hstep, hne, if_false, sliceClass_str, String.reduceEq, if_true]
+    rw [chars_encode, slice_list_ok cs _ _ _ hrA hrB hrC hne hl]
+    simp only [wrapRes]
+    rw [indices_clamp cs.length A B (C.getD 1) hl hst, henc]
+  · intro i hi
+    have hlt := hbnd i hi
+    obtain ⟨_, h2, h3⟩ := cursor_on_boundaries cs i hlt
+    refine ⟨hlt, ?_, h2, h3⟩
+    rw [charBytesAt_encode cs i hlt]
+    simp [hlt]
+  · rw [← henc, chars_encode]
+  · rw [← henc, chars_encode]
+
+/-- `e` + combining acute accent, a 4-byte character, `x` — every second character backwards:
+    `x` and the combining mark (Python splits the grapheme as well), 3 bytes -/
+example : ∃ out, sliceV (Val.str .small (encode ['e', '́', '𝄞', 'x']) : Val Nat) .none .none (.num (.i64 (-2))) =
+      .ok (.ok (.str .normal out)) ∧ chars out = ['x', '́'] ∧ out.length = 3 := by
+  have h := str_slice_bytes (α := Nat) .small ['e', '́', '𝄞', 'x'] .none .none (.num (.i64 (-2))) none none (some (-2))
+    rfl rfl rfl trivial trivial (by show i64Min ≤ -2 ∧ -2 ≤ i64Max; decide) (by decide) (by decide)
+  exact ⟨_, h.1, by rw [h.2.2.1]; decide, by decide⟩
+
+/-! # Every sliceable object kind
+
+`MJ.Gen.c09ObjectImpls` lists every `impl Object` of the engine with its `ObjectRepr` and enumerator.
+`Seq` and `Iterable` objects are what `ops::slice` and `get_item_opt` treat as sequences: the model
+has them as `Val.seq` / `Val.tuple` / `Val.iter sized` / `Val.once`, and `sliceV_eq_python`,
+`getItemOpt_eq_python` speak about all of them.  `Map` and `Plain` objects are not sliced
+(`sliceV_total`: the `cannot be sliced` error) and subscripted by key (`getItemOpt_map`). -/
+
+/-- the representations and enumerator variants are the ones the model distinguishes -/
+theorem object_reprs_known :
+    MJ.Gen.c09ObjectReprs = ["Plain", "Map", "Seq", "Iterable"] ∧
+    MJ.Gen.c09EnumeratorVariants = ["NonEnumerable", "Empty", "Str", "Iter", "KeyValueIter", "RevIter", "RevKeyValueIter", "Seq", "Values"] ∧
+    MJ.Gen.c09SliceObjectReprs = ["Seq", "Iterable"] ∧
+    MJ.Gen.c09ObjectImpls.all (fun p => ["Plain", "Map", "Seq", "Iterable", "dynamic"].contains p.2.1) = true := by decide
+
+/-- maps (and namespaces, the loop object, …: everything of `ObjectRepr::Map` / `Plain`) cannot be
+    sliced: with convertible parts and a non-zero step the result is the `cannot be sliced` error -/
+theorem slice_of_map_is_error {α : Type} (kvs : List (MKey × α)) (a b c : Val α) (A B C : Option Int)
+    (ha : optBound a = .ok A) (hb : optBound b = .ok B) (hc : optBound c = .ok C) (h0 : C.getD 1 ≠ 0) :
+    sliceV (Val.map kvs) a b c = .ok (.error (unsliceableErr (Val.map kvs))) ∧
+    sliceV (Val.plain : Val α) a b c = .ok (.error (unsliceableErr (Val.plain : Val α))) := by
+  simp [sliceV, ha, hb, hc, h0, sliceClass_map, sliceClass_plain]
+
+example : sliceV (Val.map [(MKey.int 0, 7)]) (Val.none : Val Nat) Val.none Val.none =
+    .ok (.error (unsliceableErr (Val.map [(MKey.int 0, 7)]))) :=
+  (slice_of_map_is_error _ _ _ _ none none none rfl rfl rfl (by decide)).1
+
+/-! ## Repetitions (`seq * n`, `struct Repeated`) -/
+
+/-- `seq * n` for a plain sized operand: Python's `xs * n`, and the announced length is the real one -/
+theorem repeat_plain {α : Type} (xs : List α) (n : Nat) (r : Rep α) (h : repeatIterable (.plain xs) n = .ok r) :
+    r.items = (List.replicate n xs).flatten ∧ r.Honest := by
+  unfold repeatIterable at h
+  by_cases hle : (Operand.plain xs).enumLen * n ≤ MJ.Gen.c09RepeatedMax
+  · simp only [hle, if_true] at h
+    cases h
+    simp only [Rep.items, Rep.Honest, Operand.enumLen]
+    by_cases h0 : xs.length = 0
+    · have : xs = [] := List.eq_nil_of_length_eq_zero h0
+      subst this
+      simp [repIter_nil]
+    · simp only [h0, if_false, repIter_eq]
+      simp [Nat.mul_comm]
+  · simp only [hle, if_false] at h; cases h
+
+/-- a repetition of a repetition: Python's `(xs * a) * b`, again with an honest length — the
+    innermost operand is repeated `a * b` times, repetitions do not nest -/
+theorem repeat_rep {α : Type} (inner : Rep α) (hh : inner.Honest) (n : Nat) (r : Rep α)
+    (h : repeatIterable (.rep inner) n = .ok r) :
+    r.items = (List.replicate n inner.items).flatten ∧ r.Honest ∧ r.xs = inner.xs := by
+  obtain ⟨ht, hl⟩ := hh
+  unfold repeatIterable at h
+  by_cases hle : (Operand.rep inner).enumLen * n ≤ MJ.Gen.c09RepeatedMax
+  · simp only [hle, if_true] at h
+    cases h
+    simp only [Rep.items, Rep.Honest, Operand.enumLen]
+    rw [← repIter_eq]
+    by_cases h0 : inner.total = 0
+    · have hi : repIter inner.n inner.xs = [] := by
+        apply List.eq_nil_of_length_eq_zero; simp only [Rep.items] at ht; omega
+      simp [h0, hi, repIter_nil, repIter_zero, hl]
+    · simp only [h0, if_false]
+      by_cases hn : n = 0
+      · subst hn; simp [repIter_zero, hl]
+      · have : inner.total * n ≠ 0 := Nat.mul_ne_zero h0 hn
+        simp only [this, if_false]
+        rw [repIter_mul]
+        refine ⟨rfl, ⟨?_, hl⟩, trivial⟩
+        rw [repIter_length]
+        simp only [Rep.items] at ht
+        rw [← ht, Nat.mul_comm]
+  · simp only [hle, if_false] at h; cases h
+
+/-- the only failure of a repetition: more items than the limit -/
+theorem repeat_error_iff {α : Type} (o : Operand α) (n : Nat) :
+    (∃ e, repeatIterable o n = .error e) ↔ MJ.Gen.c09RepeatedMax < o.enumLen * n := by
+  unfold repeatIterable
+  by_cases h : o.enumLen * n ≤ MJ.Gen.c09RepeatedMax
+  · simp only [h, if_true]
+    constructor
+    · rintro ⟨e, he⟩; cases o <;> cases he
+    · intro h2; omega
+  · simp only [h, if_false]
+    exact ⟨fun _ => by omega, fun _ => ⟨_, rfl⟩⟩
+
+/-- slices and subscripts of a repetition are Python's `(xs * n)[a:b:c]` / `(xs * n)[i]` -/
+theorem repeated_eq_python {α : Type} (xs : List α) (n : Nat) (r : Rep α) (h : repeatIterable (.plain xs) n = .ok r)
+    (a b c key : Val α) (A B C : Option Int) (i : Int)
+    (ha : pyBound a = some A) (hb : pyBound b = some B) (hc : pyBound c = some C) (wa : a.WF) (wb : b.WF) (wc : c.WF)
+    (hk : pyInt key = some i) :
+    (if C = some 0 then sliceV r.val a b c = .ok (.error zeroStepErr)
+     else ∃ q, sliceV r.val a b c = .ok (.ok q) ∧
+       pyView q = some ((PySeq.list (List.replicate n xs).flatten).slice A B (C.getD 1))) ∧
+    getItemOpt r.val key = (PySeq.list (List.replicate n xs).flatten).index i := by
+  obtain ⟨hi, hh⟩ := repeat_plain xs n r h
+  have hlen : r.items.length < 9223372036854775808 := by
+    have hle : xs.length * n ≤ MJ.Gen.c09RepeatedMax := by
+      unfold repeatIterable at h
+      by_cases hle : (Operand.plain xs).enumLen * n ≤ MJ.Gen.c09RepeatedMax
+      · exact hle
+      · simp only [hle, if_false] at h; cases h
+    rw [hi, ← repIter_eq, repIter_length]
+    have : MJ.Gen.c09RepeatedMax = 100000000 := rfl
+    rw [Nat.mul_comm]; omega
+  have hv : pyView r.val = some (.list (List.replicate n xs).flatten) := by simp only [Rep.val, pyView, hi]
+  refine ⟨sliceV_eq_python α r.val a b c _ A B C hv ha hb hc wa wb wc (by simpa [PySeq.len, ← hi] using hlen), ?_⟩
+  exact getItemOpt_eq_python r.val key _ i hv hk (by simpa [PySeq.len, ← hi] using hlen) (by intro h; cases h)
+
+example : ∃ r, repeatIterable (.plain [10, 20, 30]) 2 = .ok r ∧ r.items = [10, 20, 30, 10, 20, 30] ∧
+    ∃ r2, repeatIterable (.rep r) 3 = .ok r2 ∧ r2.n = 6 ∧ r2.total = 18 ∧ r2.xs = [10, 20, 30] ∧
+    getItemOpt r2.val (Val.num (.i64 (-1)) : Val Nat) = some (.elem 30) := by
+  refine ⟨_, rfl, by decide, _, rfl, rfl, rfl, rfl, by decide⟩
+
+/-! ## Chains nested deeper than `MergeSeq::MAX_DEPTH` are flattened in order -/
+
+/-- the shape of `push_flattened_value` / `with_repr` the model transcribes (regenerated) -/
+theorem merge_flatten_shape : MJ.Gen.c09MergeFlatten = ["pop-last", "merge:extend-operands-reversed", "other:push"] := by decide
+
+/-- flattening a nested chain keeps the items and their order, and leaves no nested chain behind
+    (so every subscript and slice of the flattened chain is that of the nested one) -/
+theorem pushFlattened_items {α : Type} (t : MTree α) (values : List (MTree α)) :
+    itemsList (pushFlattened t values) = itemsList values ++ t.items ∧
+    (∀ u ∈ pushFlattened t values, u ∈ values ∨ ∃ xs, u = .leaf xs) := by
+  have h := flattenLoop_items t.size [t] values (by simp [sizeList])
+  simpa [pushFlattened, itemsList] using h
+
+theorem flattenAll_items {α : Type} (vs : List (MTree α)) :
+    itemsList (flattenAll vs) = itemsList vs ∧ ∀ u ∈ flattenAll vs, ∃ xs, u = .leaf xs := by
+  have key : ∀ (vs acc : List (MTree α)), (∀ u ∈ acc, ∃ xs, u = MTree.leaf xs) →
+      itemsList (vs.foldl (fun acc v => pushFlattened v acc) acc) = itemsList acc ++ itemsList vs ∧
+      ∀ u ∈ vs.foldl (fun acc v => pushFlattened v acc) acc, ∃ xs, u = MTree.leaf xs := by
+    intro vs
+    induction vs with
+    | nil => intro acc hacc; exact ⟨by simp [itemsList], hacc⟩
+    | cons v rest ih =>
+      intro acc hacc
+      obtain ⟨h1, h2⟩ := pushFlattened_items v acc
+      have hacc' : ∀ u ∈ pushFlattened v acc, ∃ xs, u = MTree.leaf xs := by
+        intro u hu
+        rcases h2 u hu with h | h
+        · exact hacc u h
+        · exact h
+      obtain ⟨h3, h4⟩ := ih (pushFlattened v acc) hacc'
+      refine ⟨?_, h4⟩
+      simp only [List.foldl_cons]
+      rw [h3, h1]
+      simp [itemsList, List.append_assoc]
+  have := key vs [] (by simp)
+  simpa [flattenAll, itemsList] using this
+
+example : (flattenAll ([.node [.node [.leaf [1], .leaf [2]], .leaf [3]], .leaf [], .node [.node [.leaf [4]]]] : List (MTree Nat))).map MTree.items
+    = [[1], [2], [3], [], [4]] := by decide
+
+/-! ## Reversed views (`Value::reverse`) -/
+
+/-- the arms of `Value::reverse` (regenerated): every enumerator variant reverses — except that
+    `RevIter` is handed on as it is (`forward`; known finding `reverse:RevIter`, pinned by the
+    existing test suite).  `reverseView` is the model of the reversing arms; for a `RevIter` object the
+    correspondence uses the identity view while that row says `forward`. -/
+theorem reverse_arms_known :
+    MJ.Gen.c09ReverseArms.map (·.1) = ["NonEnumerable", "Empty", "Seq", "Iter", "KeyValueIter", "RevIter", "RevKeyValueIter", "Str", "Values"] ∧
+    (MJ.Gen.c09ReverseArms.filter (fun p => p.1 != "RevIter")).all (fun p => p.2 != "forward") = true := by decide
+
+/-- `v|reverse` (through a reversing arm): Python's `reversed(v)` — a string from a string, bytes from
+    bytes, a lazy list otherwise -/
+theorem reverse_view_python {α : Type} (v : Val α) (s : PySeq α) (hv : pyView v = some s) :
+    ∃ r, reverseView v = some r ∧ pyView r = some s.reversed := by
+  cases v with
+  | str r bs =>
+    simp only [pyView, Option.some.injEq] at hv; subst hv
+    exact ⟨_, rfl, by simp only [pyView, chars_encode, PySeq.reversed]⟩
+  | bytes bs => simp only [pyView, Option.some.injEq] at hv; subst hv; exact ⟨_, rfl, rfl⟩
+  | tuple xs => simp only [pyView, Option.some.injEq] at hv; subst hv; exact ⟨_, rfl, rfl⟩
+  | seq xs => simp only [pyView, Option.some.injEq] at hv; subst hv; exact ⟨_, rfl, rfl⟩
+  | iter sized xs => simp only [pyView, Option.some.injEq] at hv; subst hv; exact ⟨_, rfl, rfl⟩
+  | once xs => simp only [pyView, Option.some.injEq] at hv; subst hv; exact ⟨_, rfl, rfl⟩
+  | _ => simp [pyView] at hv
+
+/-- the reversed view holds what `v[::-1]` holds, item by item (a tuple sliced backwards is a
+    tuple, its reversed view a lazy list: the items are the same) -/
+theorem reverse_view_eq_back_slice {α : Type} (s : PySeq α) :
+    (s.slice none none (-1)).items = s.reversed.items := by
+  cases s with
+  | str cs =>
+    simp only [PySeq.slice, PySeq.pick, PySeq.len, PySeq.items, PySeq.reversed]
+    rw [pick_indices_rev cs]
+  | bytes bs =>
+    simp only [PySeq.slice, PySeq.pick, PySeq.len, PySeq.items, PySeq.reversed]
+    rw [pick_indices_rev bs]
+  | tuple xs =>
+    simp only [PySeq.slice, PySeq.pick, PySeq.len, PySeq.items, PySeq.reversed]
+    rw [pick_indices_rev xs]
+  | list xs =>
+    simp only [PySeq.slice, PySeq.pick, PySeq.len, PySeq.items, PySeq.reversed]
+    rw [pick_indices_rev xs]
+
+example : ∃ r, reverseView (Val.tuple [1, 2, 3] : Val Nat) = some r ∧ pyView r = some (.list [3, 2, 1]) ∧
+    getItemOpt r (Val.num (.i64 (-1))) = some (.elem 1) := ⟨_, rfl, rfl, by decide⟩
+
+/-! ## One-shot iterators used more than once -/
+
+/-- the first subscript of a fresh one-shot iterator is `get_item_opt`'s answer -/
+theorem once_getItem_agrees {α : Type} (xs : List α) (key : Val α) :
+    (onceGetItem xs key).1.map Item.elem = getItemOpt (Val.once xs) key := by
+  simp only [onceGetItem, getItemOpt, obj_iter, if_true]
+  cases valI64 key with
+  | none => rfl
+  | some i => by_cases h : i < 0 <;> simp [h]
+
+/-- a non-negative subscript pulls exactly `k + 1` items; one relative to the end drains the iterator -/
+theorem once_getItem_leaves {α : Type} (xs : List α) (key : Val α) (i : Int) (hk : valI64 key = some i) :
+    (onceGetItem xs key).2 = if i < 0 then [] else xs.drop (i.toNat + 1) := by
+  simp only [onceGetItem, hk]
+  by_cases h : i < 0 <;> simp [h]
+
+example : onceGetItem [10, 11, 12, 13] (Val.num (.i64 1) : Val Nat) = (some 11, [12, 13]) ∧
+    onceGetItem [10, 11, 12, 13] (Val.num (.i64 (-1)) : Val Nat) = (Option.none, []) := by decide
+
+/-- one enumeration of a slice of a one-shot iterator yields Python's selection of what was left;
+    what it yields together with what it leaves was there before, in that order (positive steps
+    without a bound relative to the end) — nothing is yielded twice, nothing is invented; every
+    other slice collects the iterator and leaves nothing -/
+theorem once_slice_enum {α : Type} (rem : List α) (A B : Option Int) (st : Int)
+    (hA : OptInI64 A) (hB : OptInI64 B) (hst : InI64 st) (h0 : st ≠ 0) (hl : rem.length < 9223372036854775808) :
+    ∃ left, onceSliceEnum rem A B st = .ok (pick rem (PySlice.indices rem.length A B st), left) ∧
+      (st > 0 ∧ (isNeg A || isNeg B) = false → (pick rem (PySlice.indices rem.length A B st) ++ left).Sublist rem) ∧
+      (¬ (st > 0 ∧ (isNeg A || isNeg B) = false) → left = []) := by
+  have hS := slice_list_ok rem A B st hA hB hst h0 hl
+  unfold onceSliceEnum
+  by_cases hc : st > 0 ∧ (isNeg A || isNeg B) = false
+  · rw [if_pos hc]
+    have hU := sliceUnsized_eq_slice rem A B (some st) hA hB hst hl
+    rw [hS] at hU
+    unfold sliceUnsized at hU
+    rw [if_pos (by simpa using hc)] at hU
+    rw [unsizedLen_eq]
+    cases ho : offsetLen A B 18446744073709551615 with
+    | panic => rw [ho] at hU; cases hU
+    | ok p =>
+      obtain ⟨off, n⟩ := p
+      rw [ho] at hU
+      simp only [Option.getD_some] at hU
+      injection hU with hU
+      injection hU with hU
+      refine ⟨_, by simp only []; rw [hU], ?_, fun h => absurd hc h⟩
+      intro _
+      rw [← hU]
+      by_cases hn : n = 0
+      · subst hn; simp [stepBy]
+      · simp only [hn, if_false]
+        have h1 : (stepBy (asUsize st) (List.take n (List.drop off rem))).Sublist (List.take n (List.drop off rem)) := stepBy_sublist _ _
+        have h2 : (List.take n (List.drop off rem) ++ List.drop (off + n) rem).Sublist rem := by
+          have : List.drop (off + n) rem = List.drop n (List.drop off rem) := by rw [List.drop_drop, Nat.add_comm]
+          rw [this, List.take_append_drop]
+          exact List.drop_sublist _ _
+        exact (List.Sublist.append_right h1 _).trans h2
+  · rw [if_neg hc, hS]
+    exact ⟨[], rfl, fun h => absurd h hc, fun _ => rfl⟩
+
+/-- an open-ended slice of a one-shot iterator drains it: a second enumeration finds nothing -/
+theorem once_open_slice_second_enum_empty {α : Type} (rem : List α) (A : Option Int) (st : Int)
+    (hA : OptInI64 A) (hst : InI64 st) (h0 : st ≠ 0) (hl : rem.length < 9223372036854775808)
+    (ys left : List α) (h : onceSliceEnum rem A none st = .ok (ys, left)) :
+    left = [] ∧ ∃ left2, onceSliceEnum left A none st = .ok ([], left2) := by
+  have hleft : left = [] := by
+    unfold onceSliceEnum at h
+    by_cases hc : st > 0 ∧ (isNeg A || isNeg none) = false
+    · rw [if_pos hc, unsizedLen_eq] at h
+      have hAn : ¬ (A.getD 0 < 0) := by
+        have := hc.2
+        cases A with
+        | none => simp
+        | some a => simp only [isNeg, Bool.or_false, decide_eq_false_iff_not] at this; simpa using this
+      have hAr : 0 ≤ A.getD 0 ∧ A.getD 0 < 9223372036854775808 := by
+        cases A with
+        | none => simp
+        | some a => simp only [OptInI64, InI64] at hA; simp only [Option.getD_some] at hAn ⊢; omega
+      have ho : offsetLen A none 18446744073709551615 = .ok ((A.getD 0).toNat, 18446744073709551615 - (A.getD 0).toNat) := by
+        unfold offsetLen
+        have e1 : asUsize (A.getD 0) = (A.getD 0).toNat := asUsize_of_nonneg _ (by omega) (by omega)
+        simp only [or_true, if_true, hAn, if_false, pure_eq, ok_bind, e1]
+      rw [ho] at h
+      simp only [] at h
+      injection h with h
+      have hn : ¬ (18446744073709551615 - (A.getD 0).toNat = 0) := by omega
+      simp only [hn, if_false, Prod.mk.injEq] at h
+      rw [← h.2]
+      apply List.drop_eq_nil_of_le
+      omega
+    · rw [if_neg hc, slice_list_ok rem A none st hA trivial hst h0 hl] at h
+      injection h with h
+      simp only [Prod.mk.injEq] at h
+      exact h.2.symm
+  refine ⟨hleft, ?_⟩
+  subst hleft
+  obtain ⟨l2, h2, _, _⟩ := once_slice_enum ([] : List α) A none st hA trivial hst h0 (by simp)
+  refine ⟨l2, ?_⟩
+  rw [h2]
+  simp [pick]
+
+example : (∃ left, onceSliceEnum [0, 1, 2, 3, 4, 5] (some 1) (some 4) 2 = .ok ([1, 3], left) ∧ ([1, 3] ++ left).Sublist [0, 1, 2, 3, 4, 5]) ∧
+    onceSliceEnum [0, 1, 2, 3] none none (-1) = .ok ([3, 2, 1, 0], []) := by
+  refine ⟨?_, by decide⟩
+  obtain ⟨l, h, hs, _⟩ := once_slice_enum [0, 1, 2, 3, 4, 5] (some 1) (some 4) 2 (by simp [OptInI64, InI64])
+    (by simp [OptInI64, InI64]) (by simp [InI64]) (by decide) (by decide)
+  have e : pick [0, 1, 2, 3, 4, 5] (PySlice.indices 6 (some 1) (some 4) 2) = [1, 3] := by decide
+  simp only [List.length_cons, List.length_nil] at h hs
+  rw [e] at h hs
+  exact ⟨l, h, hs ⟨by decide, by decide⟩⟩
+
+end Round5
 end MJ.C09
